@@ -1,7 +1,8 @@
 from _common import COMMON_NOTE
 
 META = {'title': 'Border pixels show the colour written to the ULA before the beam got there',
- 'lean_modules': ['ZxVerif.Props.C09', 'ZxVerif.Props.C09Sys'],
+ 'lean_modules': ['ZxVerif.Props.C09', 'ZxVerif.Props.C09Sys', 'ZxVerif.Props.C09X'],
+ 'extract': ['VideoConsts'],
  'modelled_code': ['rustzx-core/src/zx/video/border.rs',
                    'rustzx-core/src/zx/constants.rs (screen / border geometry)',
                    'rustzx-core/src/zx/machine/mod.rs (first pixel, line and frame lengths, contention_clocks)',
